@@ -22,7 +22,12 @@ import (
 const modPath = "github.com/oasisprotocol/curve25519-voi"
 
 var repoDir = "/repo"
-var verifDir = "/verif"
+var verifDir = func() string {
+	if d := os.Getenv("VERIF_DIR"); d != "" {
+		return d // (development only: an alternative harness tree)
+	}
+	return "/verif"
+}()
 
 type Directive struct {
 	Kind  string // ob | contract | stub
@@ -47,6 +52,7 @@ type Loaded struct {
 	errT     *types.Pointer
 	fset     interface{}
 	initSecs float64
+	asm      map[string]*AsmFunc
 	loadSecs float64
 }
 
@@ -195,6 +201,9 @@ func loadConfig(config string) (*Loaded, error) {
 		}
 	}
 	ld.baseObjN = n
+	if err := ld.loadAsm(); err != nil {
+		return nil, err
+	}
 	return ld, nil
 }
 
